@@ -7,8 +7,10 @@ CFG = {
         'bitmap.FromStr32/split': 'bitmap.FromStr32 (two consecutive windows and their union)',
         'bmtree.PathOf/fields': 'bmtree.PathLen/PathHeight/PathBits/PathMask(bmtree.PathOf(...))',
         'bmtree.PathsOf/sorted': 'bmtree.PathsOf(sorted keys, dedup=true)',
+        'bmtree.PathsOf/runs': 'bmtree.PathsOf (long key list given as alphabet + runs, result run-length encoded)',
+        'bmtree.PathsOf/runs/held': 'bmtree.PathsOf (two long lists, both results read after the second call)',
         'bmtree.PathsOf/held': 'bmtree.PathsOf (two calls, both results read after the second)'},
- 'rule': 'cases = corpus + held pairs of PathsOf results over ascending sizes (run first) + exhaustive (all strings of length 0..2 (thorough 0..3) over {00,80,ff,01,a5} x all from in '
+ 'rule': 'cases = corpus + held pairs of PathsOf results over ascending sizes (run first) + key lists of 1025..4100 keys in compact form (alphabet + runs; runs of equal keys straddling / ending at / starting at the multiples of 256, 512, 1024, 2048; both dedup flags; held pairs) + every from in [MaxInt32-40, MaxInt32] x every w in 0..32 with tobit = int32(from+w) wrapping (FromStr32, PathOf, PathStr, fields, PathsOf) + exhaustive (all strings of length 0..2 (thorough 0..3) over {00,80,ff,01,a5} x all from in '
          '[0, 8*len+9] and 56 x all widths 0..32; all strings of length 5 x unaligned starts x width 32 (five-byte windows; thorough: from 0..8 x widths 24..32 and all strings of length 4 x all from x all widths)) + sampled strings of length 3..6 over the same alphabet (all from <= 56, '
          'boundary widths) + random strings of length 0..40 over the shared byte alphabets with starts before / at / after '
          'the end of the string, aligned and unaligned, widths aimed at byte-span boundaries and at the end of the string '
@@ -19,7 +21,7 @@ CFG = {
          'ends in the last byte or not) resp. (dedup, adjacent duplicates, non-adjacent duplicates, first path class, '
          'number of keys); distinct = distinct (op,args)',
  'assumptions': ['from >= 0, 0 <= w <= 32 (w = to-from resp. the height): the domain of the property',
-                 'from + w + 7 < 2^31 and 8*len(s) < 2^31 (Go\'s int32 bit positions cannot overflow; beyond that is outside every statement)',
+                 '8*len(s) < 2^31, and from + w + 7 < 2^31 (no int32 overflow) OR 8*len(s) <= from (start at/beyond the end of the string: then tobit = int32(from+w) may wrap negative and the result is (0,0) / the empty path)',
                  'every byte is in [0,256) (bytes_ok)'],
  'trusted': ['fmt.Sprintf("%0*b") modelled definitionally as the zero-padded binary numeral (Model/BmtreePathStr.v: fmt_0b)'],
  'explanation': 'Theorems over the model: FromStr32 s from (from+w) = (k, value of the k selected bits followed by w-k zeros) with '
